@@ -52,7 +52,7 @@ def check(ctx):
         if nondeg:
             c2 = dict(c, seed=c['seed'] + 1)
             d = c05_child.digest_run(c2, []) if mode == 'in-process' else child(c2, [], 1)
-            if d['digest'] == a['digest']:
+            if d['digest'] == a['digest'] and d.get('first_positions') == a.get('first_positions'):
                 C.issue('seed-not-used', 'oracle', rp, mode=mode)
         if a['error'] is None and not a['stream_consumed']:
             C.issue('stream-not-consumed', 'oracle', rp)
